@@ -21,7 +21,7 @@ def model_check(ctx):
                  dict(MEM_BASE, NDisp=2),
                  dict(MEM_BASE, MaxOps=3, NAdmin=1),
                  dict(MEM_BASE, InitN=4, InitCap=4, NAdmin=1, MaxOps=3),
-                 dict(MEM_BASE, InitN=2, InitCap=2, NDisp=2, MaxOps=3, Classes={1, 2},
+                 dict(MEM_BASE, InitN=2, InitCap=2, NDisp=2, MaxOps=2, Classes={1, 2},
                       OpKinds={"add", "delidx", "delkey", "updidx"})]
     for c in grid:
         ctx.tlc("TableMem", "TableMem_mc.cfg", consts=c, invariants=MEM_INV, workers=4,
